@@ -51,6 +51,8 @@ pub struct HistProp {
     pub extra: Option<(u32, fn(Tier) -> BoxedStrategy<History>)>,
     /// weight (out of 10) of the many-batches scenario generator
     pub many_batches: u32,
+    /// weight (out of 10) of the zero-arrival-batch scenario generator
+    pub zero_arrival: u32,
 }
 
 pub const ENVELOPE: &str = "operating envelope of DESIGN.md section 4 (E1 magnitudes <= 1e18, E2 simulator abstraction of bank/staking/distribution, E3 trusted owner configuration, E4 slashing never leaves the hub without stake, E5 swap/oracle stubs, E6 principals)";
@@ -83,6 +85,10 @@ impl Prop for HistProp {
         if self.many_batches > 0 {
             parts.push((self.many_batches, many_batches_scenario_strategy((self.cfgs)())));
             used += self.many_batches;
+        }
+        if self.zero_arrival > 0 {
+            parts.push((self.zero_arrival, zero_arrival_scenario_strategy((self.cfgs)())));
+            used += self.zero_arrival;
         }
         if parts.is_empty() {
             return general;
